@@ -24,6 +24,7 @@ ASSUMPTIONS = [
     "exhaustive only inside the listed TLC configurations; deeper terms / expressions / documents are seeded samples",
 ]
 
+HOW_WEIGHTED = ["classes", "operators", "forward", "shared", "shared", "shared-ops", "shared-ops"]
 KINDS = ["char", "inset", "any", "str", "lit", "eof", "seq", "choice", "many", "until", "opt", "kl", "kr", "fb", "nfb",
          "map", "lift"]
 ALL_BIN = ["seq", "choice", "until", "kl", "kr", "fb", "nfb", "lift1", "lift3", "lift4"]
@@ -61,23 +62,26 @@ def plan(tier):
             dict(name="tag2", mod="TagLangMC", atoms=[1, 2, 3, 4, 5], depth=2, mutlen=4),
             # bare regexes whose body holds operator characters (they run to the next blank)
             dict(name="tag2r", mod="TagLangMC", atoms=[1, 2, 11, 12], depth=2, mutlen=5),
+            # every atom (anchored regexes, regexes that would match across two tags) at depth 1
+            dict(name="tag1", mod="TagLangMC", atoms=list(range(1, 17)), depth=1, mutlen=3),
             dict(name="json2", mod="JsonDocMC", atoms=[1, 2, 3, 4, 6, 8], depth=2),
-            dict(name="json1", mod="JsonDocMC", atoms=list(range(1, 21)), depth=1),
+            dict(name="json1", mod="JsonDocMC", atoms=list(range(1, 24)), depth=1),
         ]
     return [
         dict(name="deep2", mod="PegMC", leaves=[1, 2], un=[1, 2, 4, 5, 6, 8], bin=deep_bin, depth=2, nary=True,
-             alpha=["a", "b"], maxlen=4, hows=2),
+             alpha=["a", "b"], maxlen=4, hows=3),
         dict(name="deep2e", mod="PegMC", leaves=[1, 2, 3], un=[1, 2, 3, 4, 6, 7, 8],
              bin=["seq", "choice", "until", "kl", "kr", "fb", "nfb", "lift3"], depth=2, nary=True,
              alpha=["a", "b"], maxlen=4, sample=30000, hows=1),
         dict(name="leafy1", mod="PegMC", leaves=list(range(1, 19)), un=list(range(1, 9)), bin=ALL_BIN, depth=1,
-             alpha=["a", "b", "A", "\\"], maxlen=3, hows=3),
+             alpha=["a", "b", "A", "\\"], maxlen=3, hows=5),
         dict(name="tag2", mod="TagLangMC", atoms=[1, 2, 3, 4, 5], depth=2, mutlen=7),
         dict(name="tag2b", mod="TagLangMC", atoms=[6, 7, 8, 9, 10], depth=2, mutlen=5),
         dict(name="tag2r", mod="TagLangMC", atoms=[1, 2, 11, 12], depth=2, mutlen=7),
-        dict(name="tag2s", mod="TagLangMC", atoms=[3, 13, 14, 15], depth=2, mutlen=5),
+        dict(name="tag2s", mod="TagLangMC", atoms=[3, 13, 14, 16], depth=2, mutlen=5),
+        dict(name="tag1", mod="TagLangMC", atoms=list(range(1, 17)), depth=1, mutlen=5),
         dict(name="json2", mod="JsonDocMC", atoms=list(range(1, 9)), depth=2),
-        dict(name="json1", mod="JsonDocMC", atoms=list(range(1, 21)), depth=1),
+        dict(name="json1", mod="JsonDocMC", atoms=list(range(1, 24)), depth=1),
     ]
 
 
@@ -165,7 +169,7 @@ def rand_inputs(rng, n, maxlen):
 
 
 UNIVERSE = ["a", "b", "ab"]
-BODIES = ["a", "b", "^a", "b$", "b|a$", "a,b", "a&b", "^(a|b)$"]
+BODIES = ["a", "b", "^a", "b$", "b|a$", "a,b", "a&b", "^(a|b)$", "b.a"]
 
 
 def rand_ast(rng, depth):
@@ -251,7 +255,8 @@ def rand_json(rng, depth):
     if depth == 0 or rng.random() < 0.3:
         k = rng.choice(["int", "int", "dec", "str", "str", "true", "false", "null", "arr", "obj"])
         if k == "int":
-            return jn("int", str(rng.choice([0, 0, 1, -1, 7, 10, rng.randint(-10 ** 6, 10 ** 6), rng.randint(0, 10 ** 25)])))
+            return jn("int", str(rng.choice([0, 0, 1, -1, 7, 10, rng.randint(-10 ** 6, 10 ** 6), rng.randint(0, 10 ** 25),
+                                                2 ** 53 + rng.randint(1, 999), -(2 ** 63) - rng.randint(1, 99)])))
         if k == "dec":
             while True:
                 a = repr(rng.choice([0.0, 0.5, -2.25, round(rng.uniform(-1000, 1000), rng.randint(1, 6))]))
@@ -469,7 +474,7 @@ def run(prop, tier):
     st = Stage()
     counts = dict(peg_terms=0, peg_pairs=0, tag_exprs=0, json_docs=0)
     npeg = ntag_model = njson_model = nbad_model = 0
-    all_hows = ["classes", "operators", "forward"]
+    all_hows = ["classes", "operators", "forward", "shared", "shared-ops"]
 
     # -- combinators: emitted terms (groups of at most ~6e5 term x input pairs are driven and validated together)
     acc_jobs, acc_expect, acc_pairs = [], {}, 0
@@ -491,9 +496,8 @@ def run(prop, tier):
                                  c["sample"] - len(small))
         items, expect = [], {}
         for x in terms:
-            nh = c.get("hows", 1 if quick else 3)
-            hows = all_hows if nh >= 3 else rng.sample(all_hows[:2] * 2 + all_hows[2:], 1) if nh == 1 \
-                else all_hows[:2]
+            nh = c.get("hows", 1 if quick else 5)
+            hows = all_hows if nh >= 5 else [rng.choice(HOW_WEIGHTED)] if nh == 1 else ["classes", "operators", "shared"]
             for how in hows:
                 items.append(dict(t=x["t"], how=how))
             expect[("peg", key(x["t"]), key(ws))] = x["res"]
